@@ -343,6 +343,8 @@ def _operator(cfg, B):
     RB = [r.copy() for r in rhsB.rhs(fd.field.fdata(modelB, meshB, [c.copy() for c in consB]))]
     replayable = cfg['flux'] != 'abstract' and cfg['num'] != 'muscl:abstract'
     kw = dict(method='sweep', replayable=replayable)
+    if clause == 'units':
+        kw['scales'] = [sc['_a'], sc['_b'], sc['_l']]
     cfl = B.pos('cfl', 0.1, 1.0)
     if mname == 'burgers':
         for i in range(n):
